@@ -400,8 +400,7 @@ func run(c Case, o *lib.Obs) error {
 				continue
 			}
 			a, b := cur.resolved(t, idx), c.Before.resolved(&c.Before.Targets[j], bidx)
-			sort.Strings(a)
-			sort.Strings(b)
+			a, b = uniqSorted(a), uniqSorted(b)
 			if strings.Join(a, " ") != strings.Join(b, " ") {
 				closure[i] = "declares a dependency on a changed target that now provides something else (resolved dependencies were " + strings.Join(b, " ") + ", are " + strings.Join(a, " ") + ")"
 				stack = append(stack, i)
@@ -490,6 +489,17 @@ func run(c Case, o *lib.Obs) error {
 		}
 	}
 	return nil
+}
+
+func uniqSorted(s []string) []string {
+	sort.Strings(s)
+	var out []string
+	for i, x := range s {
+		if i == 0 || x != s[i-1] {
+			out = append(out, x)
+		}
+	}
+	return out
 }
 
 func mustJSON(v any) string {
